@@ -68,6 +68,9 @@ structure Opts where
   includeTrash : Bool := false
   includeOldVersions : Bool := false
   distinct : Bool := false
+  whereKV : Str := []      -- `Where` (rendered "key=value"; [] = nil map)
+  includeS : Str := []     -- `Include`
+  clusterId : Str := []    -- `ClusterID`
 deriving DecidableEq, Repr
 
 /-- Answer of one backend call. `error 0` is an error without an HTTP status. -/
